@@ -52,6 +52,11 @@ type c23Case struct {
 	Part     string     `json:"part"`
 	NumNodes int        `json:"num_nodes"` // agg: the NumNodes handed to the loop
 	Fake     int        `json:"fake"`      // api: further members known to memberlist
+	// api: members that joined and have left since (a leave intent, then
+	// memberlist's notice that the node is gone): they stay in serf's member
+	// table as tombstones, memberlist no longer counts them, and nobody can
+	// expect them to reply
+	Departed int `json:"departed,omitempty"`
 	Op       int        `json:"op"`        // api: 0 list 1 install 2 use 3 remove
 	Replies  []c23Reply `json:"replies"`
 	NKeys    int        `json:"nkeys"` // trunc
@@ -125,6 +130,7 @@ func genC23(t *rapid.T) c23Case {
 		}
 	case "api":
 		c.Fake = rapid.IntRange(0, 4).Draw(t, "fake")
+		c.Departed = rapid.SampledFrom([]int{0, 0, 1, 2}).Draw(t, "departed")
 		c.Op = rapid.IntRange(0, 3).Draw(t, "op")
 		c.Relay = rapid.SampledFrom([]int{0, 0, 1, 3, 255}).Draw(t, "relay")
 		nn := c.Fake + 1
@@ -385,6 +391,14 @@ func bodyC23Agg(c c23Case, x *vkit.Ctx) {
 	x.NonTrivial(want.undecodable > 0 && want.failed > 0)
 }
 
+// mlDead is memberlist's dead message (wire names); From == Node means the
+// node announced its own departure.
+type mlDead struct {
+	Incarnation uint32
+	Node        string
+	From        string
+}
+
 // mlAlive is memberlist's alive message (wire names).
 type mlAlive struct {
 	Incarnation uint32
@@ -424,6 +438,50 @@ func bodyC23API(c c23Case, x *vkit.Ctx) {
 			return
 		}
 		time.Sleep(200 * time.Microsecond)
+	}
+	// ... and members that have left since: they came, announced their leave, and
+	// memberlist reported them gone. serf keeps them (status left) for the
+	// tombstone timeout; memberlist's member count is back to numNodes.
+	for i := 0; i < c.Departed; i++ {
+		name := fmt.Sprintf("gone%d", i)
+		b, _ := mpEnc(mlAlive{Incarnation: 1, Node: name, Addr: []byte{10, 1, 1, byte(i + 1)}, Port: 7946, Vsn: []uint8{1, 5, 2, 2, 5, 4}})
+		n.Tr.Inject("10.1.0.1:7946", append([]byte{4}, b...))
+		known := func() bool {
+			for _, m := range n.Serf.Members() {
+				if m.Name == name {
+					return true
+				}
+			}
+			return false
+		}
+		for dl := time.Now().Add(5 * time.Second); !known(); time.Sleep(200 * time.Microsecond) {
+			if time.Now().After(dl) {
+				x.Inconclusive("memberlist did not take the member that is to leave")
+				return
+			}
+		}
+		lv, _ := serf.VerifEncodeMessage(serf.VerifMessageLeaveType, &serf.VerifMessageLeave{LTime: 1000 + serf.LamportTime(i), Node: name}, false)
+		n.Delegate.NotifyMsg(lv)
+		d, _ := mpEnc(mlDead{Incarnation: 1, Node: name, From: name})
+		n.Tr.Inject("10.1.0.1:7946", append([]byte{5}, d...))
+	}
+	if c.Departed > 0 {
+		left := func() int {
+			k := 0
+			for _, m := range n.Serf.Members() {
+				if m.Status == serf.StatusLeft {
+					k++
+				}
+			}
+			return k
+		}
+		for dl := time.Now().Add(5 * time.Second); n.Serf.Memberlist().NumMembers() != numNodes || left() != c.Departed; time.Sleep(200 * time.Microsecond) {
+			if time.Now().After(dl) {
+				x.Inconclusive("the departures did not settle")
+				return
+			}
+		}
+		x.Labelf("api:departed-members=%d", c.Departed)
 	}
 	km := n.Serf.KeyManager()
 	type res struct {
